@@ -74,12 +74,7 @@ def plan(tier):
     return jobs
 
 
-def run(tier):
-    chk = Check(PROP, tier)
-    chk.model("MC_LeakToy")
-    ex = extract.write_extracted(chk)
-    leak, nm = build_leak(chk)
-    jobs = plan(tier)
+def attempt(chk, tier, ex, leak, nm, jobs, tag):
     tasks = []
     for ji, (prim, mode, pub, secrets, limit) in enumerate(jobs):
         for si, s in enumerate(secrets):
@@ -118,9 +113,28 @@ def run(tier):
     def keyfn(b):
         ev = b["ev"]
         return "leak.%s.%s" % (ev["prim"], "schedule" if ev["op"] == "leak.schedule" else ev.get("mode", ""))
-    chk.exec_and_validate("T_Leak", cmds, keyfn)
-    chk.extra["trace_items"] = traced_items
-    chk.extra["traced_runs"] = len(tasks)
+    chk.exec_and_validate("T_Leak", cmds, keyfn, tag=tag)
+    chk.extra["trace_items"] = chk.extra.get("trace_items", 0) + traced_items
+    chk.extra["traced_runs"] = chk.extra.get("traced_runs", 0) + len(tasks)
+
+
+def run(tier):
+    chk = Check(PROP, tier)
+    chk.model("MC_LeakToy")
+    ex = extract.write_extracted(chk)
+    leak, nm = build_leak(chk)
+    jobs = plan(tier)
+    attempt(chk, tier, ex, leak, nm, jobs, "t1")
+    if chk.bad:
+        # a difference counts only if it shows again when both processes are traced afresh
+        # (runtime noise must never become an alarm)
+        first = {b["key"]: b for b in chk.bad}
+        chk.bad = []
+        attempt(chk, tier, ex, leak, nm, jobs, "t2")
+        second = {b["key"] for b in chk.bad}
+        chk.bad = [first[k] for k in first if k in second]
+        if not chk.bad:
+            raise core.Infra("trace differences %s did not reproduce on freshly traced processes" % sorted(first))
     return chk.finish(
         "model_checking",
         "model: non-interference of the algorithm-level observations (masked selection, borrow-chain comparison, fixed "
